@@ -301,8 +301,7 @@ Lemma pre_spec rp rcs m cc sc (s v : seq bool) i :
 Proof.
 case: rp rcs => [|cc' rp'] [|sc' rcs'] //= himp hbpw hT hs hi.
   by rewrite himp bits0 big_cons big_nil /= (size0nil hs) eqxx addr0.
-rewrite prex_cons hbpw -hs take_size_cat // big_distrl /=.
-rewrite [RHS](eq_bigr (fun b => \sum_(j <- ts) chainF b (sc' :: rcs') j * s_T sc j i)) //.
+rewrite prex_cons hbpw -hs take_size_cat //.
 rewrite [RHS]exchange_big /=.
 apply: eq_big_seq => j; rewrite mem_iota add0n => /andP[_ hj].
 rewrite (@fwdx_spec (cc' :: rp') (sc' :: rcs') m (s_ids sc) himp) // hT //.
@@ -347,13 +346,86 @@ transitivity (\sum_(s <- bits (size shared)) \sum_(b <- bits m | pick shared b =
   rewrite exchange_big /=; apply: eq_bigr => v _.
   by rewrite (pre_spec _ hf hbpw hT hs hi) !big_distrl.
 rewrite (exchange_big_dep xpredT) //=.
-rewrite -addnA sum_bits_cat.
+rewrite [RHS]sum_bits_cat.
 apply: eq_big_seq => b; rewrite mem_bitsE => /eqP hb.
 under eq_bigl do rewrite eq_sym.
 rewrite (@sum_bits_eq _ (size shared)) ?size_pick // sum_bits_cat.
 apply: eq_big_seq => v; rewrite mem_bitsE => /eqP hv.
 rewrite hbx // big_distrr /=; apply: eq_bigr => g _.
 by rewrite hpick // (inF_local _ _ _ hf hb).
+Qed.
+
+(* ---------------------------------------------------------------- chains are sums over paths *)
+Local Notation pwK := (@path_weight K 1 *%R).
+Local Notation states := (hmm_states tn na).
+
+Definition lastT (prev : option nat) (p : seq (nat * nat)) : option nat :=
+  foldl (fun _ s => Some s.1) prev p.
+(* weight of a path through the prefix, times the transition into value i of the next column sc *)
+Definition pwin (beta : seq bool) (prev : option nat) (pre : seq scolK) (sc : scolK)
+                (p : seq (nat * nat)) (i : nat) : K :=
+  pwK prev pre beta p * (if lastT prev p is Some j then s_T sc j i else 1).
+
+Lemma sum_states (F : nat * nat -> K) :
+  \sum_(s <- states) F s = \sum_(i <- ts) \sum_(a <- as_) F (i, a).
+Proof. by rewrite /hmm_states big_allpairs_dep. Qed.
+
+Lemma pw_cat beta prev pre sc scs (p1 : seq (nat * nat)) s p2 :
+  size p1 = size pre ->
+  pwK prev (pre ++ sc :: scs) beta (p1 ++ s :: p2)
+  = pwin beta prev pre sc p1 s.1 * s_W sc (pick (s_ids sc) beta) s.1 s.2 * pwK (Some s.1) scs beta p2.
+Proof.
+elim: pre prev p1 => [|c0 pre IH] prev [|s0 p1] //= hsz.
+  by rewrite /pwin /= mul1r.
+case: hsz => hsz; rewrite (IH _ _ hsz) /pwin /= !mulrA.
+by [].
+Qed.
+
+Lemma bwd_paths beta scs j : (j < tn)%N ->
+  \sum_(p <- seqs states (size scs)) pwK (Some j) scs beta p = chainB beta scs j.
+Proof.
+elim: scs j => [|sc scs IH] j hj; first by rewrite sum_seqs0 chainB_nil.
+rewrite [size _]/= sum_seqsS sum_states chainB_cons //.
+apply: eq_big_seq => i; rewrite mem_iota add0n => /andP[_ hi].
+rewrite LspecE big_distrl big_distrr /=; apply: eq_bigr => a _.
+by rewrite /= -big_distrr /= IH // mulrA.
+Qed.
+
+Lemma in_paths beta pre sc i : (i < tn)%N ->
+  \sum_(p <- seqs states (size pre)) pwin beta None pre sc p i = inF beta (rev pre) sc i.
+Proof.
+elim/last_ind: pre sc i => [|pre sc' IH] sc i hi.
+  by rewrite sum_seqs0 /pwin /= mulr1.
+rewrite size_rcons sum_seqs_rcons rev_rcons /inF.
+rewrite (eq_big_seq (fun p => \sum_(j <- ts) \sum_(a <- as_)
+     pwin beta None pre sc' p j * s_W sc' (pick (s_ids sc') beta) j a * s_T sc j i)); last first.
+  move=> p /size_seqs hp; rewrite sum_states; apply: eq_bigr => j _; apply: eq_bigr => a _.
+  rewrite /pwin -cats1 -[rcons p _]cats1 (@pw_cat beta None pre sc' [::] p (j, a) [::] hp) /=.
+  by rewrite /lastT foldl_cat /= mulr1.
+rewrite exchange_big /=; apply: eq_big_seq => j; rewrite mem_iota add0n => /andP[_ hj].
+rewrite chainF_cons // LspecE -/(inF beta (rev pre) sc' j) -IH //.
+rewrite (eq_bigr (fun p => pwin beta None pre sc' p j
+          * (\sum_(a <- as_) s_W sc' (pick (s_ids sc') beta) j a) * s_T sc j i)); last first.
+  by move=> p _; rewrite -big_distrl /= -big_distrr.
+by rewrite -big_distrl /= -big_distrl /=; congr (_ * _); rewrite mulrC.
+Qed.
+
+(* the total over all paths of a weight that depends on the state at column c, for a fixed bipartition *)
+Lemma chain_to_paths beta pre sc scs (Phi : nat * nat -> K) :
+  \sum_(p <- seqs states (size (pre ++ sc :: scs))) Phi (nth (0%N, 0%N) p (size pre)) * pwK None (pre ++ sc :: scs) beta p
+  = \sum_(i <- ts) \sum_(a <- as_)
+       Phi (i, a) * (inF beta (rev pre) sc i * s_W sc (pick (s_ids sc) beta) i a * chainB beta scs i).
+Proof.
+rewrite size_cat /= sum_seqs_add.
+rewrite (eq_big_seq (fun p1 => \sum_(i <- ts) \sum_(a <- as_) Phi (i, a) *
+     (pwin beta None pre sc p1 i * s_W sc (pick (s_ids sc) beta) i a * chainB beta scs i))); last first.
+  move=> p1 /size_seqs hp1; rewrite sum_seqsS sum_states.
+  apply: eq_big_seq => i; rewrite mem_iota add0n => /andP[_ hi]; apply: eq_bigr => a _.
+  rewrite -(bwd_paths beta scs hi) !big_distrr /=; apply: eq_bigr => p2 _.
+  by rewrite nth_cat hp1 ltnn subnn /= pw_cat.
+rewrite exchange_big /=; apply: eq_big_seq => i; rewrite mem_iota add0n => /andP[_ hi].
+rewrite exchange_big /=; apply: eq_bigr => a _.
+by rewrite -(in_paths beta pre sc hi) -big_distrr /= !big_distrl.
 Qed.
 
 End Posterior.
